@@ -29,5 +29,6 @@ def run(e, R, tier):
         Rt.r_map_shape,
         P.r_wrap_fields,
         P.r_wrap_reduce,
+        P.r_reduce_types,
     ])
     R.trust("Future.set_running_or_notify_cancel returns False iff the future was cancelled; Executor.map submits one call per element of zip(*iterables)")
